@@ -80,6 +80,7 @@ def run(S):
     check_truth_table(S)
     N = 2 if S.tier == 'quick' else 4
     leafs(S, D)
+    inclusion_tables(S, D)
     stats_and_build(S, D, N)
 
 
@@ -264,14 +265,18 @@ def stats_and_build(S, D, N):
             'balance outputs + non-dust HTLC outputs never exceed the channel value', binds, split=case)
     afford = z3.If(X.zbool(funder.t), holder_msat >= (anchors + fee) * 1000, cp_msat >= (anchors + fee) * 1000)
     S.prove('C01.c.conservation', E, pre_b + [afford],
-            z3.And(to_b + to_c + nd_total_sat + anchors + fee <= V.t,
-                   # what is left over is exactly dust HTLCs, trimmed balances and sub-satoshi remainders
-                   (V.t - (to_b + to_c + nd_total_sat + anchors + fee)) * 1000 ==
-                   sum([z3.If(z3.And(pres[i], z3.Not(nd[i])), amount[i], 0) for i in range(N)]) +
-                   sum([z3.If(nd[i], amount[i] % 1000, 0) for i in range(N)]) +
-                   (h_before % 1000) + (c_before % 1000) +
-                   1000 * (z3.If(X.zbool(local.t), h_sat, c_sat) - to_b) + 1000 * (z3.If(X.zbool(local.t), c_sat, h_sat) - to_c)),
-            'when the funder can afford anchors+fee: outputs + non-dust HTLCs + anchors + fee add up to the channel value, the remainder being exactly dust HTLCs, trimmed balances and sub-satoshi remainders (each pending HTLC counted once)',
+            to_b + to_c + nd_total_sat + anchors + c_fee <= V.t,
+            'when the funder can afford anchors+fee: outputs + non-dust HTLCs + anchors + fee never exceed the channel value',
+            binds, split=case)
+    # exact accounting; uses the equalities established by C01.c.outputs / C01.c.nondust_set as hypotheses
+    given = [to_b == sp_to_b, to_c == sp_to_c, c_fee == fee] + [nd[i] == sp_nd[i] for i in range(N)]
+    S.prove('C01.c.conservation_exact', E, pre_b + [afford] + given,
+            (V.t - (to_b + to_c + nd_total_sat + anchors + fee)) * 1000 ==
+            sum([z3.If(z3.And(pres[i], z3.Not(nd[i])), amount[i], 0) for i in range(N)]) +
+            sum([z3.If(nd[i], amount[i] % 1000, 0) for i in range(N)]) +
+            (h_before % 1000) + (c_before % 1000) +
+            1000 * (z3.If(X.zbool(local.t), h_sat, c_sat) - to_b) + 1000 * (z3.If(X.zbool(local.t), c_sat, h_sat) - to_c),
+            'given C01.c.outputs and C01.c.nondust_set: what the outputs, anchors and nominal fee leave over is exactly the dust HTLCs, the trimmed balances and the sub-satoshi remainders - every pending HTLC is counted exactly once',
             binds, split=case)
     S.no_panic('C01.c.build.nopanic', E, pre_b, 'construction does not panic when both balances cover their own HTLCs', binds,
                only=lambda p: p in build_panics)
@@ -303,3 +308,176 @@ def stats_and_build(S, D, N):
     S.validate('C01.c.build.validate', E, b_build, n=120 if S.tier == 'quick' else 600)
     S.validate('C01.b.stats.validate', E, b_stats, n=120 if S.tier == 'quick' else 600)
 
+
+
+# ---- C01.d: per-state HTLC inclusion tables (channel.rs) ------------------------------------
+def _closure_result(S, E, fname, which_param, local_b, mem, name):
+    """run the filter closure of `fname` whose 2nd parameter type contains which_param on a
+    symbolic HTLC (lazy struct `name`) and a symbolic `local`"""
+    ix = S.mir()
+    cands = []
+    for i in ix.find(fname.split('::')[-1]) if False else range(len(ix.offsets)):
+        h = ix.offsets[i][0]
+        if ('::%s::{closure#' % fname) in h and __import__('re').search(r'_2: &&(?:\w+::)*' + which_param + r'\b', h) and h.rstrip(' {').endswith('-> bool'):
+            cands.append(i)
+    if len(cands) != 1:
+        raise Inconclusive('%s: expected exactly one bool filter closure over %s, found %d' % (fname, which_param, len(cands)))
+    fn = ix.get(cands[0])
+    import re as _re
+    caps = {}
+    for dn, dv in fn.debug.items():
+        mm = _re.search(r'\(\*?_1\)?\.(\d+): (&?)bool', dv)
+        if mm:
+            caps[int(mm.group(1))] = (dn, mm.group(2) == '&')
+    vals = []
+    extra = {}
+    for k in range(max(caps) + 1 if caps else 0):
+        dn, byref = caps[k]
+        v = local_b if dn == 'local' else E.sym('%s.cap.%s' % (name, dn), 'bool')
+        if dn != 'local':
+            extra[dn] = v
+        if byref:
+            c0 = E.new_cell()
+            mem[c0] = v
+            vals.append(X.Ref(c0))
+        else:
+            vals.append(v)
+    if not any(d == 'local' for d, _ in caps.values()):
+        raise Inconclusive('closure of %s does not capture `local`' % fname)
+    m = _re.search(r'\{closure@[^}]*\}', fn.params[0][1])
+    clo = X.Clo(m.group(0), vals)
+    fn.extra_caps = extra
+    cc = E.new_cell()
+    mem[cc] = clo
+    self_arg = X.Ref(cc) if fn.params[0][1].startswith('&') else clo
+    htlc = E.sym(name, fn.params[1][1], mem)
+    r = E.call_fn(fn, [self_arg, htlc], True, mem)
+    if r is X.DIVERGE:
+        raise Inconclusive('closure of %s did not return' % fname)
+    return r[0], fn
+
+
+def inclusion_tables(S, D):
+    E = S.engine()
+    mem = {}
+    local = E.sym('local', 'bool')
+    L = X.zbool(local.t)
+    IV = lambda n: D.variant_index('InboundHTLCState', n)
+    OV = lambda n: D.variant_index('OutboundHTLCState', n)
+
+    # the real methods on a symbolic state
+    f_in = S.fn('included_in_commitment', first_param='InboundHTLCState')
+    f_out = S.fn('included_in_commitment', first_param='OutboundHTLCState')
+    p_in = S.fn('preimage', first_param='InboundHTLCState')
+    p_out = S.fn('preimage', first_param='OutboundHTLCState')
+    gbl = E.sym('generated_by_local', 'bool')
+    G = X.zbool(gbl.t)
+    ist = E.sym('ist', f_in.params[0][1], mem)
+    ost = E.sym('ost', f_out.params[0][1], mem)
+    inc_in = X.zbool(S.call(E, f_in, [ist, gbl], mem).t)
+    inc_out = X.zbool(S.call(E, f_out, [ost, gbl], mem).t)
+    E.models.insert(0, (__import__('re').compile(r'^<.*PaymentPreimage as Clone>::clone$|^<.* as Copy>'), lambda *a: X.Opaque('preimage')))
+    pre_in = X.zint(S.call(E, p_in, [ist], mem).d) == 1
+    pre_out = X.zint(S.call(E, p_out, [ost], mem).d) == 1
+    iv = mem[ist.cell]
+    ov = mem[ost.cell]
+    i_d, o_d = X.zint(iv.d), X.zint(ov.d)
+
+    def in_reason_fulfill(v, base):
+        r = E.read_path(v, (('v', 'LocalRemoved'), ('f', 0, 'ln::channel::InboundHTLCRemovalReason')), mem, True, 'spec')
+        return X.zint(r.d) == D.variant_index('InboundHTLCRemovalReason', 'Fulfill')
+
+    def out_success(v, variant):
+        r = E.read_path(v, (('v', variant), ('f', 0, 'ln::channel::OutboundHTLCOutcome')), mem, True, 'spec')
+        return X.zint(r.d) == D.variant_index('OutboundHTLCOutcome', 'Success')
+    in_ful = in_reason_fulfill(iv, 'ist')
+    o_succ = z3.Or(z3.And(o_d == OV('RemoteRemoved'), out_success(ov, 'RemoteRemoved')),
+                   z3.And(o_d == OV('AwaitingRemoteRevokeToRemove'), out_success(ov, 'AwaitingRemoteRevokeToRemove')),
+                   z3.And(o_d == OV('AwaitingRemovedRemoteRevoke'), out_success(ov, 'AwaitingRemovedRemoteRevoke')))
+
+    # BOLT-2 two-phase commit table (written out from the protocol, not from the code):
+    # inbound HTLC: in OUR commitment (signed by them: generated_by_local = false) from their
+    # announcement until our removal is irrevocably acked; in THEIR commitment (generated by us)
+    # only once we have acked the add and until we remove it.
+    spec_in = z3.If(z3.Or(i_d == IV('RemoteAnnounced'), i_d == IV('AwaitingRemoteRevokeToAnnounce'), i_d == IV('LocalRemoved')), z3.Not(G), True)
+    # outbound HTLC: in THEIR commitment (generated by us) from our announcement until we have
+    # signed its removal; in OUR commitment only while irrevocably committed.
+    spec_out = z3.If(o_d == OV('Committed'), True, z3.If(o_d == OV('AwaitingRemovedRemoteRevoke'), False, G))
+    reason_d = X.zint(E.read_path(iv, (('v', 'LocalRemoved'), ('f', 0, 'ln::channel::InboundHTLCRemovalReason')), mem, True, 'spec').d)
+    succ_arg = z3.Bool('oracle.succ')
+    E.assume(succ_arg == o_succ)
+    b_in = Binding('inbound_state_table', [i_d, reason_d, gbl.t], [inc_in, pre_in])
+    b_out = Binding('outbound_state_table', [o_d, succ_arg, gbl.t], [inc_out, pre_out])
+    tb = [b_in, b_out]
+    S.prove('C01.d.inbound_table', E, [], inc_in == spec_in, 'InboundHTLCState::included_in_commitment equals the BOLT-2 two-phase-commit table for all 5 states x generated_by_local', tb, bounds='5 states x 2')
+    S.prove('C01.d.outbound_table', E, [], inc_out == spec_out, 'OutboundHTLCState::included_in_commitment equals the BOLT-2 table for all 5 states x generated_by_local', tb, bounds='5 states x 2')
+    S.prove('C01.d.preimage_known', E, [], z3.And(pre_in == z3.And(i_d == IV('LocalRemoved'), in_ful), pre_out == o_succ),
+            'a preimage is reported exactly for inbound LocalRemoved(Fulfill) and for outbound *Removed*(Success)', tb)
+    S.no_panic('C01.d.methods.nopanic', E, [], 'inclusion methods are total')
+
+    # prediction closures of get_next_commitment_htlcs / get_next_commitment_value_to_self_msat, on the SAME
+    # symbolic states (the closures read the state through the HTLC struct: tie the symbols together)
+    def tie(htlc_ref, which, st_val):
+        hv = E.read_path(mem[htlc_ref.cell], htlc_ref.path, mem, True, 'spec')
+        while isinstance(hv, X.Ref):
+            hv = E.read_path(mem[hv.cell], hv.path, mem, True, 'spec')
+        idx = D.field_index(which, 'state')
+        return E.read_path(hv, (('f', idx, 'ln::channel::' + ('InboundHTLCState' if which.startswith('In') else 'OutboundHTLCState')),), mem, True, 'spec')
+
+    E2 = S.engine()
+    mem2 = {}
+    local2 = E2.sym('local', 'bool')
+    L = X.zbool(local2.t)
+    nin, fn1 = _closure_result(S, E2, 'get_next_commitment_htlcs', 'InboundHTLCOutput', local2, mem2, 'hin')
+    nout, fn2 = _closure_result(S, E2, 'get_next_commitment_htlcs', 'OutboundHTLCOutput', local2, mem2, 'hout')
+    cin, fn3 = _closure_result(S, E2, 'get_next_commitment_value_to_self_msat', 'InboundHTLCOutput', local2, mem2, 'hin')
+    cout, fn4 = _closure_result(S, E2, 'get_next_commitment_value_to_self_msat', 'OutboundHTLCOutput', local2, mem2, 'hout')
+    nin, nout, cin, cout = [X.zbool(v.t) for v in (nin, nout, cin, cout)]
+    # states as seen by the closures
+    def st_of(name, which):
+        idx = D.field_index(which, 'state')
+        ty = 'ln::channel::' + ('InboundHTLCState' if which.startswith('In') else 'OutboundHTLCState')
+        return E2.sym('%s.*.*.%d' % (name, idx), ty, mem2)
+    iv2, ov2 = st_of('hin', 'InboundHTLCOutput'), st_of('hout', 'OutboundHTLCOutput')
+    i2, o2 = X.zint(iv2.d), X.zint(ov2.d)
+    r = E2.read_path(iv2, (('v', 'LocalRemoved'), ('f', 0, 'ln::channel::InboundHTLCRemovalReason')), mem2, True, 'spec')
+    in_ful2 = X.zint(r.d) == D.variant_index('InboundHTLCRemovalReason', 'Fulfill')
+
+    def osucc2(variant):
+        rr = E2.read_path(ov2, (('v', variant), ('f', 0, 'ln::channel::OutboundHTLCOutcome')), mem2, True, 'spec')
+        return X.zint(rr.d) == D.variant_index('OutboundHTLCOutcome', 'Success')
+    o_succ2 = z3.Or(z3.And(o2 == OV('RemoteRemoved'), osucc2('RemoteRemoved')),
+                    z3.And(o2 == OV('AwaitingRemoteRevokeToRemove'), osucc2('AwaitingRemoteRevokeToRemove')),
+                    z3.And(o2 == OV('AwaitingRemovedRemoteRevoke'), osucc2('AwaitingRemovedRemoteRevoke')))
+    in_succ2 = z3.And(i2 == IV('LocalRemoved'), in_ful2)
+    # outbound LocalAnnounced is in the set iff include_counterparty_unknown_htlcs (a captured flag)
+    unk = None
+    m = __import__('re').search(r'\(\*_1\)\.(\d): &bool', fn2.text)
+    succ2 = z3.Bool('oracle.succ2')
+    E2.assume(succ2 == o_succ2)
+    unk_sym = fn2.extra_caps['include_counterparty_unknown_htlcs'].t if 'include_counterparty_unknown_htlcs' in getattr(fn2, 'extra_caps', {}) else z3.BoolVal(True)
+    BASE = 9900000000
+    pb_in = Binding('next_commitment_probe', [z3.BoolVal(True), i2, X.zint(r.d), local2.t, z3.BoolVal(True)], [z3.If(nin, 1, 0), BASE + z3.If(cin, 1000, 0), BASE])
+    pb_out = Binding('next_commitment_probe', [z3.BoolVal(False), o2, z3.If(succ2, 1, 0), local2.t, unk_sym], [z3.If(nout, 1, 0), BASE - z3.If(cout, 1000, 0), BASE])
+    pb = [pb_in, pb_out]
+    # (i) prediction is a superset of what a commitment built now for side X contains
+    #     X = local  <-> built with generated_by_local = false ; X = remote <-> generated_by_local = true
+    built_in = z3.If(z3.Or(i2 == IV('RemoteAnnounced'), i2 == IV('AwaitingRemoteRevokeToAnnounce'), i2 == IV('LocalRemoved')), L, True)
+    built_out = z3.If(o2 == OV('Committed'), True, z3.If(o2 == OV('AwaitingRemovedRemoteRevoke'), False, z3.Not(L)))
+    S.prove('C01.d.next_superset_inbound', E2, [], z3.Implies(built_in, nin),
+            'every inbound HTLC that a commitment built now for side X contains is also in the predicted next set for X', bindings=pb, bounds='5 states x 2 sides')
+    inc_unknown = X.zbool(fn2.extra_caps['include_counterparty_unknown_htlcs'].t) if 'include_counterparty_unknown_htlcs' in getattr(fn2, 'extra_caps', {}) else None
+    if inc_unknown is None:
+        raise Inconclusive('outbound filter of get_next_commitment_htlcs does not capture include_counterparty_unknown_htlcs')
+    S.prove('C01.d.local_announced_flag', E2, [o2 == OV('LocalAnnounced')], nout == inc_unknown,
+            'an outbound HTLC the counterparty does not know yet is predicted exactly when the caller asks to include unknown HTLCs', bindings=pb)
+    S.prove('C01.d.next_superset_outbound', E2, [o2 != OV('LocalAnnounced')], z3.Implies(built_out, z3.Or(nout, z3.And(o2 == OV('AwaitingRemoteRevokeToRemove'), z3.Not(L)))),
+            'every outbound HTLC that a commitment built now for side X contains is in the predicted next set for X, except AwaitingRemoteRevokeToRemove on the remote side (no remote commitment can be generated in that state)', bindings=pb, bounds='4 states x 2 sides (LocalAnnounced depends on the include-unknown flag)')
+    # (ii) each HTLC is accounted for exactly once per side: in the next set, or excluded and credited
+    #      to its receiver (only when a preimage is known), or excluded and left with its sender
+    S.prove('C01.d.account_once_inbound', E2, [], cin == z3.And(z3.Not(nin), in_succ2),
+            'an inbound HTLC is credited to us in the predicted balance exactly when it is excluded from the predicted set and was fulfilled', bindings=pb, bounds='5 states x 2 reasons x 2 sides')
+    S.prove('C01.d.account_once_outbound', E2, [o2 != OV('LocalAnnounced')], cout == z3.And(z3.Not(nout), o_succ2),
+            'an outbound HTLC is debited from us in the predicted balance exactly when it is excluded from the predicted set and succeeded', bindings=pb, bounds='4 states x 2 outcomes x 2 sides')
+    S.no_panic('C01.d.closures.nopanic', E2, [], 'prediction filters are total')
+    S.witness('C01.d.witness', E2, [], z3.And(cin, cout))
